@@ -239,6 +239,7 @@ def bind(fn, sigjson, tinfo, native=False):
         elif pt.kind == "mem":
             a = Arg("P", pt.tid, None, scalar=ip["name"])
             a.cname, a.ctype, a.const = ip["name"], ip["type"], pt.const
+            a.complex, a.is_bool = getattr(pt, "complex", False), getattr(pt, "is_bool", False)
             ctx.args.append(a)
             ctx.ir_order.append(("mem", ip["name"], ip["type"]))
         else:
